@@ -73,6 +73,12 @@ func cellScenario(id string, mc *modeCell) *Scenario {
 	if c.UpdVar != "<unset>" {
 		spec.UpdVar = sp(c.UpdVar)
 	}
+	// every fourth cell runs with ambient settings the table does not mention (a -update flag of
+	// the host test binary, UPDATE*/GOLDEN variables): they must not move the cell
+	hh := fnv.New32a()
+	hh.Write([]byte(id))
+	noise := hh.Sum32()%4 == 0
+	spec.Noise = noise
 	cfg := map[string]string{"unset": "c", "true": "ut", "false": "uf"}[c.Upd]
 	val := v1
 	if c.St == "different" {
@@ -83,13 +89,13 @@ func cellScenario(id string, mc *modeCell) *Scenario {
 		"TestA": {Execs: [][]*Step{{{Op: "match", API: c.API, Cfg: cfg, Val: val}}}},
 		"TestB": {Execs: [][]*Step{{anchor2}}},
 	}})
-	sc.Note = fmt.Sprintf("cell ci=%s upd=%s UPDATE_SNAPS=%s api=%s entry=%s sort=%v obsolete=%v", c.CI, c.Upd, c.UpdVar, c.API, c.St, c.Sort, c.Obsolete)
+	sc.Note = fmt.Sprintf("cell ci=%s upd=%s UPDATE_SNAPS=%s api=%s entry=%s sort=%v obsolete=%v ambient=%v", c.CI, c.Upd, c.UpdVar, c.API, c.St, c.Sort, c.Obsolete, noise)
 	return sc
 }
 
 func checkC05(c *CheckCtx) error {
-	c.Rule = "cells of the mode table: CI{off,CI=true,GITHUB_ACTIONS=true,CI=false+vendor} x Update{unset,true,false} x UPDATE_SNAPS{unset,true,clean,TRUE,1,yes,false,empty} x 5 APIs x entry{missing,equal,different} x sort x obsolete; every cell is distinct and non-trivial (one real process pair)"
-	c.Assumptions = []string{"CI detection is the library's start-up capture (ciinfo): CI=true and GITHUB_ACTIONS=true are 'on', CI=false wins over vendor variables", "the recording process of a cell runs off CI with defaults"}
+	c.Rule = "cells of the mode table: CI{off,CI=true,GITHUB_ACTIONS=true,BUILD_NUMBER=42,CI=false+vendor} x Update{unset,true,false} x UPDATE_SNAPS{unset,true,clean,TRUE,1,yes,false,empty} x 5 APIs x entry{missing,equal,different} x sort x obsolete; every cell is distinct and non-trivial (one real process pair)"
+	c.Assumptions = []string{"CI detection is the library's start-up capture (ciinfo): CI=true, GITHUB_ACTIONS=true and a bare BUILD_NUMBER are 'on', CI=false wins over vendor variables", "the recording process of a cell runs off CI with defaults"}
 	dir, err := specDir(c.Sc, c.Sc.Next("mc"))
 	if err != nil {
 		return err
